@@ -2,7 +2,7 @@
    The model runs every operation inside one SQL transaction: the tables of the result are either those the
    operation built (commit) or exactly the previous ones (rollback); only sequences are not transactional. *)
 From Coq Require Import List ZArith String Bool Lia.
-From LV Require Import Base.Util Ledger.Types Ledger.Core Ledger.Invariants.
+From LV Require Import Base.Util Ledger.Types Ledger.Core Ledger.Invariants Ledger.ScriptProofs.
 Import ListNotations.
 Open Scope Z_scope.
 
@@ -34,7 +34,27 @@ Theorem C07_replay_identity : forall f now s o s' lid tid, step f now s o = SR s
 Proof. exact step_hit_identity. Qed.
 Print Assumptions C07_replay_identity.
 
+(* a request whose metadata would override a key its script set (set_tx_meta, non-empty value) is refused with
+   METADATA_OVERRIDE before anything is written: no table changes and no transaction or log id is consumed *)
+Theorem C07_metadata_override_no_trace : forall f now s ps ts ref md amd force smd samd ik dry k v w,
+  find_ik (s_logs s) ik = None -> ps <> [] -> feasible force (s_vols s) ps = true ->
+  mget smd k = Some v -> v <> ""%string -> In (k, w) md ->
+  exists s', step f now s (script_op ps ts ref md amd force smd samd ik dry) = SR s' (RErr EMetadataOverride) /\
+             tables s' = tables s /\ s_next_tx s' = s_next_tx s /\ s_next_log s' = s_next_log s.
+Proof. exact script_override_no_trace. Qed.
+Print Assumptions C07_metadata_override_no_trace.
+
 Local Open Scope string_scope.
+Example C07_override_example :
+  let f := {| f_moves := true; f_pcev := true; f_acc_hist := true; f_tx_hist := true; f_hash := true |} in
+  let p := {| p_src := "world"; p_dst := "bob"; p_asset := "USD"; p_amt := 5 |} in
+  (exists s', step f 10 init_state (script_op [p] None "" [("k1", "v2")] [] false [("k1", "v1")] [] "" false) = SR s' (RErr EMetadataOverride)
+              /\ tables s' = tables init_state) /\
+  (* a key the script set to the EMPTY string may be overridden *)
+  (exists s', step f 10 init_state (script_op [p] None "" [("k1", "v2")] [] false [("k1", "")] [] "" false) = SR s' (ROk 1 (Some 1) false)
+              /\ map t_meta (s_txs s') = [[("k1", "v2")]]).
+Proof. split; eexists; split; vm_compute; reflexivity. Qed.
+
 Example C07_example :
   let f := {| f_moves := true; f_pcev := true; f_acc_hist := true; f_tx_hist := true; f_hash := true |} in
   let p := {| p_src := "alice"; p_dst := "bob"; p_asset := "USD"; p_amt := 5 |} in
